@@ -40,6 +40,7 @@ func checkC14(ctx *Ctx, r *Report) {
 	c14SeventhRound(ctx, r)
 	c14PathKeysUnambiguous(ctx, r)
 	c14EighthRound(ctx, r)
+	c14NinthRound(ctx, r)
 	c02GoRuntimeDefines(ctx, r)
 }
 
@@ -1794,4 +1795,44 @@ func c14EighthRound(ctx *Ctx, r *Report) {
 	}
 	r.Count("hunted clauses of the converter rules (8th round)", n)
 	r.Floor("hunted clauses of the converter rules (8th round)", 2)
+}
+
+// c14NinthRound — seventh hunt of C14: the `!= ""` guard of a string assignment stands for "differs from what a new builder
+// holds"; on a path that can hold null a new builder holds nil, and "" is a value to convert. guardForAssignments adds
+// the guard for non-nullable strings only (its condition consults the nullability of the assigned type).
+func c14NinthRound(ctx *Ctx, r *Report) {
+	fn := ctx.LookupMethod("internal/languages", "ConverterGenerator", "guardForAssignments")
+	fd, _ := ctx.DeclOf(fn)
+	if fd == nil {
+		r.Undecided("anchor lost: languages.ConverterGenerator.guardForAssignments")
+		return
+	}
+	seen, consults := false, false
+	ast.Inspect(fd.Body, func(m ast.Node) bool {
+		is, ok := m.(*ast.IfStmt)
+		if !ok || !strings.Contains(exprString(is.Cond), "KindString") {
+			return true
+		}
+		emptyGuard := false
+		ast.Inspect(is.Body, func(q ast.Node) bool {
+			if kv, ok := q.(*ast.KeyValueExpr); ok && exprString(kv.Key) == "Value" && exprString(kv.Value) == `""` {
+				emptyGuard = true
+			}
+			return true
+		})
+		if !emptyGuard {
+			return true
+		}
+		seen = true
+		if strings.Contains(exprString(is.Cond), "TypeIsNullable(") || strings.Contains(exprString(is.Cond), ".Nullable") {
+			consults = true
+		}
+		return true
+	})
+	if !seen {
+		r.Undecided("anchor changed: guardForAssignments no longer guards strings against \"\"")
+	}
+	r.Count("hunted clauses of the converter rules (9th round)", 1)
+	r.Check(consults, "flow/empty-string-guard-only-for-non-nullables", "languages.guardForAssignments guards string assignments against the empty string", fd.Pos(), "only where the assigned type can not hold null",
+		"the `!= \"\"` guard is added on every string path, also a nullable one that already carries a not-nil guard: `Outer: {title: string, note?: string, value: string | int64}` with {\"note\":\"\",\"value\":\"\"} is converted to NewOuterBuilder().Title(\"t\").Value(NewStringOrInt64Builder()) — note and the String branch are lost, although a new builder holds nil there")
 }
